@@ -122,12 +122,17 @@ def crop_cases(draw):
         w = draw(st.integers(wmin, W))
         c0 = draw(st.integers(0, W - w))
     r0 = draw(st.integers(0, H - h))
-    return {"pair": pair, "pipeline": steps, "disp": disp, "crop": [r0, c0, h, w]}
+    out = {"pair": pair, "pipeline": steps, "disp": disp, "crop": [r0, c0, h, w]}
+    if not any(n.split(".")[0] == "aggregation" for n, _ in steps) and draw(st.integers(0, 4)) == 0:
+        # a three-band pair with the band named in the matching-cost step (cbca is a mono-band step)
+        out["mb"] = draw(st.lists(st.integers(0, 9), min_size=3, max_size=3))
+        steps[0][1]["band"] = draw(st.sampled_from(["r", "g", "b"]))
+    return out
 
 
-def run(left, right, ml, mr, conv, steps, disp, row0=0, col0=0):
+def run(left, right, ml, mr, conv, steps, disp, row0=0, col0=0, bands=None):
     return drive.run_pipeline(left, right, gen.pipe_dict(steps), tuple(disp), msk_left=ml, msk_right=mr, row0=row0,
-                              col0=col0, **conv)
+                              col0=col0, bands=bands, **conv)
 
 
 def crop_body(ctx: Ctx, p: dict) -> None:
@@ -136,10 +141,17 @@ def crop_body(ctx: Ctx, p: dict) -> None:
     steps, disp = p["pipeline"], p["disp"]
     r0, c0, h, w = p["crop"]
     H, W = left.shape
-    full = run(left, right, ml, mr, conv, steps, disp)
     sl = (slice(r0, r0 + h), slice(c0, c0 + w))
-    crop = run(left[sl], right[sl], None if ml is None else ml[sl], None if mr is None else mr[sl], conv, steps, disp,
-               row0=r0, col0=c0)
+    bands = None
+    if p.get("mb"):
+        # three bands (scene x gain + offset), the matching cost works on the one the step names
+        bands = ["r", "g", "b"]
+        left = np.stack([left * (1 + k) + o for k, o in enumerate(p["mb"])]).astype(np.float32)
+        right = np.stack([right * (1 + k) + o for k, o in enumerate(p["mb"])]).astype(np.float32)
+    sl_im = sl if bands is None else (slice(None),) + sl
+    full = run(left, right, ml, mr, conv, steps, disp, bands=bands)
+    crop = run(left[sl_im], right[sl_im], None if ml is None else ml[sl], None if mr is None else mr[sl], conv, steps, disp,
+               row0=r0, col0=c0, bands=bands)
     rr, cr = radii(steps, disp)
     # interior of the crop whose cone lies inside the crop (hence inside the image)
     i0, i1, j0, j1 = rr, h - rr, cr, w - cr
@@ -181,6 +193,8 @@ def crop_body(ctx: Ctx, p: dict) -> None:
     hi_ = p["pair"]["left"]["hi"] if isinstance(p["pair"]["left"], dict) else int(np.max(p["pair"]["left"]))
     if hi_ > 255:
         classes.append("radiometry>8bit")
+    if p.get("mb"):
+        classes.append("multiband")
     if p["pair"].get("noise") and p["pair"]["noise"]["frac"] > 0.12:
         classes.append("crop-straddles-100px-block")
     elif p["pair"].get("noise"):
